@@ -76,6 +76,19 @@ func replScenarios(tier string, eagerFSM bool) []*simScenario {
 	return out
 }
 
+// scenFigure8Net: the Figure-8 seed with a network-only fault alphabet (connection loss inside a request, drops);
+// its adversarial final check continues under a leader that lacks a committed entry (state machines, clients)
+func scenFigure8Net(tier string) *simScenario {
+	d := 2
+	if tier == "thorough" {
+		d = 3
+	}
+	fig := scenRepl(replSeedByName("figure8"), d, true, 0, 0, 6)
+	fig.Name = "repl-figure8-net"
+	fig.Menu = simMenu{Cuts: true, Drops: true}
+	return fig
+}
+
 func replBudget(tier string) time.Duration {
 	if tier == "thorough" {
 		return 40 * time.Minute
@@ -94,9 +107,7 @@ func init() {
 			if t == "thorough" {
 				d = 3
 			}
-			fig := scenRepl(replSeedByName("figure8"), d, true, 0, 0, 6)
-			fig.Name = "repl-figure8-net"
-			fig.Menu = simMenu{Cuts: true, Drops: true}
+			fig := scenFigure8Net(t)
 			// "across ... snapshots": delayed / duplicated InstallSnapshot requests on a lagging follower
 			snapNet := scenSnap(snapSeeds[snapSeedIndex("lagging")], d, true, false, 0)
 			snapNet.Name = "snap-lagging-net"
@@ -110,7 +121,7 @@ func init() {
 	vkChecks["C02"] = func(args []string) int { return runSimCheck(c02, args) }
 	// C03 also covers restart / snapshot restore / snapshot installation: two snapshot seeds are added
 	withSnap := func(t string, eagerFSM bool, dev int) []*simScenario {
-		out := replScenarios(t, eagerFSM)
+		out := append([]*simScenario{scenFigure8Net(t)}, replScenarios(t, eagerFSM)...)
 		out = append(out, scenSnap(snapSeeds[snapSeedIndex("divergent")], dev, eagerFSM, false, 1), scenSnap(snapSeeds[snapSeedIndex("lagging")], dev, eagerFSM, true, 1))
 		return out
 	}
